@@ -80,8 +80,23 @@ def coq_case(case):
 
 # ---------------- implementation side + oracle
 def impl_setup():
-    global dt_bump
-    from pyg_base import dt_bump
+    global dt_bump, dt
+    from pyg_base import dt_bump, dt
+
+def do_call(t, b, api):
+    """the spellings of the same bump: dt_bump(t, bump), dt(t, bump), the parts as separate arguments, upper case"""
+    T = us2dt(t); B = py_bump(b)
+    if api == 'dt':
+        return call(dt, T, B)
+    if api == 'upper' and isinstance(B, str):
+        return call(dt_bump, T, B.upper())
+    if api == 'split' and isinstance(B, str):
+        parts = ['%d%s' % (n, u) for n, u in tokens(B)]
+        return call(dt_bump, T, *parts) if parts else call(dt_bump, T, B)
+    if api == 'dt_split' and isinstance(B, str):
+        parts = ['%d%s' % (n, u) for n, u in tokens(B)]
+        return call(dt, T, *parts) if parts else call(dt, T, B)
+    return call(dt_bump, T, B)
 
 def py_bump(b):
     if 'str' in b: return b['str']
@@ -125,7 +140,7 @@ def impl(case):
     obs = []; viol = None; status = 'ok'
     res = []
     for t, b in calls_of(case):
-        st, r = call(dt_bump, us2dt(t), py_bump(b))
+        st, r = do_call(t, b, case.get('api', 'dt_bump'))
         res.append(r)
         if st != 'ok':
             status = st
@@ -180,6 +195,8 @@ def nontrivial(case, result):
 def shape(case):
     if case['kind'] != 'bump':
         return case['kind']
+    if case.get('api'):
+        return 'bump/' + case['api']
     b = case['bump']
     if 'str' not in b:
         return 'bump:' + list(b)[0]
@@ -269,6 +286,12 @@ def gen_cases(rng, tier):
             else:
                 t += rand_tod(rng)
             cases.append({'kind': 'inverse', 't': t, 'n': abs(n), 'u': u})
+    apis = ['dt', 'upper', 'split', 'dt_split']
+    for c in cases:
+        if c['kind'] == 'bump' and 'str' in c['bump'] and c['bump']['str'] not in NAMED and rng.random() < 0.3:
+            c['api'] = rng.choice(apis)
+        elif c['kind'] == 'bump' and 'str' not in c['bump'] and rng.random() < 0.3:
+            c['api'] = 'dt'
     return cases
 
 def shrink(case):
